@@ -213,7 +213,6 @@ def c06():
         j("c06_arch_internal_tri_3", Q, 200, "internal iteration and provided Iterator methods (for_each / fold / last / count / size_hint, next then for_each) on iter and iter_mut: same items, pairing and order as dense cells"),
         j("c06_arch_internal_zf_3", Q, 200, "same on the archetype whose first column is zero-sized"),
         j("c06_arch_internal_other_2", T, 150, "same, second archetype of the world, 2 columns"),
-        J("c12_all_zst_archetype", T, 150, what="ZST-only archetype: iteration length on every path equals len() after growth and a destroy", bounds="1..3 entities", assumes=()),
         j("c06_slices_tri_3", Q, 100, "get_slice / borrow_slice / get_all_slices_mut lengths and pairing"),
         j("c06_slices_tri_4", T, 150, "slice accessors N=4"),
     ]
@@ -347,7 +346,6 @@ def c12():
         J("c12_refill_api_2", Q, 200, what="public API only, feature events with never-cleared logs: fill, destroy, refill twice; create_within_capacity Ok iff len < capacity", bounds=b, features=("events",)),
         J("c12_refill_api_2", T, 100, what="same, default features", bounds=b),
         j("c12_world_capacity_mapping", Q, 100, "World::with_capacity gives every archetype its own requested capacity (symbolic 0..2 each) in a world whose explicit ids are not monotone in declaration order; that many creations fit without growing"),
-        J("c12_all_zst_archetype", Q, 150, what="an archetype whose only column is zero-sized (no component allocation), public API, capacity 3: len/capacity, lookups, every iteration path, re-creation", bounds="1..3 entities, one symbolic destroy", assumes=()),
         j("c12_zero_capacity", Q, 40, "capacity 0: refuse within capacity, grow on create"),
         j("c12_limit_within_capacity", Q, 20, "create_within_capacity at the 2^24 limit refuses, nothing changes"),
         j("c12_limit_create_panics", Q, 20, "create at the 2^24 limit panics 'capacity overflow'", expect_fail=(("capacity overflow", "push"),)),
